@@ -43,8 +43,8 @@ type drvCfg struct {
 	TSVal, TSEcr uint32
 }
 
-func (c drvCfg) v6() bool    { return c.Local.Is6() }
-func (c drvCfg) kind() string { return strings.SplitN(strings.TrimRight(c.Variant, "46"), "-", 2)[0] }
+func (c drvCfg) v6() bool       { return c.Local.Is6() }
+func (c drvCfg) kind() string   { return strings.SplitN(strings.TrimRight(c.Variant, "46"), "-", 2)[0] }
 func (c drvCfg) echoID() uint16 { return uint16(c.EchoCounter + 1) }
 func (c drvCfg) flow() flowInfo {
 	return flowInfo{Local: c.Local, Target: c.Target, LPort: c.LPort, TPort: c.TPort, ISN: c.ISN, IAck: c.IAck, V6: c.v6()}
@@ -95,7 +95,7 @@ func newDriver(c drvCfg, wire *memWire) (common.TracerouteDriver, error) {
 		cfg := tcp.NewTCPv4(net.IP(c.Target.AsSlice()), c.TPort, uint8(c.Min), uint8(c.Max), 10*time.Millisecond, time.Second, c.Variant == "tcp-paris", false)
 		cfg.LoosenICMPSrc = c.Loosen
 		d := tcp.VerifNewDriver(cfg, net.IP(c.Local.AsSlice()), c.LPort, wire.Sink(), wire.Source())
-		if c.Variant != "tcp-paris" {
+		if c.Variant != "tcp-paris" && !keepRealAlloc {
 			tcp.VerifSetDriverIDs(d, c.BaseID, c.Seq)
 		}
 		return d, nil
@@ -206,6 +206,16 @@ func classifyRecv(resp *common.ProbeResponse, err error, now int64) string {
 		return "fatal"
 	}
 }
+
+// runDrvCaseRealAlloc is runDrvCase for the TCP default-mode driver WITHOUT pinning the packet-id
+// base: the driver keeps whatever packets.AllocPacketID handed it.
+func runDrvCaseRealAlloc(t *testing.T, c drvCfg, ops []drvOp) []drvStep {
+	keepRealAlloc = true
+	defer func() { keepRealAlloc = false }()
+	return runDrvCase(t, c, ops)
+}
+
+var keepRealAlloc bool
 
 // runDrvCase executes ops on a fresh real driver inside a synctest bubble.
 func runDrvCase(t *testing.T, c drvCfg, ops []drvOp) []drvStep {
